@@ -203,6 +203,11 @@ func Check[C any](t *testing.T, baseChecks int, gen func(*rapid.T) C, run func(C
 	flag.Set("rapid.checks", strconv.Itoa(n))
 	flag.Set("rapid.seed", strconv.FormatUint(seed, 10))
 	flag.Set("rapid.nofailfile", "true")
+	st0 := os.Getenv("HX_SHRINKTIME")
+	if st0 == "" {
+		st0 = "20s"
+	}
+	flag.Set("rapid.shrinktime", st0)
 	mu.Lock()
 	st := getStats(name)
 	st.Requested += n
